@@ -118,13 +118,21 @@ def shared(tier, seed):
     return out
 
 
+def core_frames():
+    import c12
+    fr = c12.core_frame_instances(ops=(0, 2, 4))
+    for i in fr:
+        i.core = "keyswitch_b12_12_kin24_kk36_ko36_ds1_dn2_r11_p0_sym2" in i.name
+    return fr
+
+
 def instances(tier, seed):
-    return dft_instances() + svp_instances() + vmp_instances() + shared(tier, seed)
+    return dft_instances() + svp_instances() + vmp_instances() + shared(tier, seed) + core_frames()
 
 
 META = {
-    "bounds": "DFT-domain functions: n=2, 3 columns (4 concrete column assignments), limb counts 1..3, step 1..3, offset 0..3, scale -3..3; coefficient-domain families: as in C08/C09",
-    "outside": "vmp/svp/convolution shape functions (not yet encoded), NTT120 family, poulpy-core operations (C02), floating-point kernels themselves (replaced by exact integer kernels on the bit patterns: probe_be.rs)",
+    "bounds": "vmp: n=8, rows/size/limbs 1..3, limb offset 0..1; core.* frames: see C12; DFT-domain functions: n=2, 3 columns (4 concrete column assignments), limb counts 1..3, step 1..3, offset 0..3, scale -3..3; coefficient-domain families: as in C08/C09",
+    "outside": "convolution shape functions, NTT120 family, poulpy-core operations other than C02 and the key-switch / external product / automorphism frames (core.*: N=8, two runs with independent prior output content and scratch), floating-point kernels themselves (replaced by exact integer kernels on the bit patterns: probe_be.rs)",
     "assumptions": ["leaf kernels substituted by integer operations on f64 bit patterns; FFT = identity (only shape/selection/zero-fill logic is the repository's)"],
     "stubs": ["ReimArith / ReimFFTExecute implemented by harness type Probe (harness/hk_hal/src/probe_be.rs)"],
 }
